@@ -78,87 +78,119 @@ def norm(node, defs, depth=0):
 
 # ----------------------------------------------------------------------------- RESERVE-ALGEBRA (C13)
 def check_reserve_algebra(ctx, R):
+    """rate_limit.update on the let-normal form of every normal path (helpers, generator sub-steps driven by `yield from`,
+    temporaries, tuple assignment, conditional expressions instead of max() are transparent):
+      single-store     the reservation field is written exactly once per element
+      new-reservation  its new value is max(now, previous) + interval (on a path that already knows which is larger: that one)
+      sleep            the path sleeps iff now < previous, for previous - now
+      order            the clock is read once, before the store; the store precedes the first suspension; one emission of the
+                       element with its metadata follows the store
+      initial          the constructor starts the reservation at 0"""
+    import re
+    from ..symexpr import SymEval, nf as snf, norm_cond
     M = ctx.model
     cls = M.cls('streamz.core', 'rate_limit')
-    fn = cls.methods.get('update')
+    fn = cls.find('update')
     if fn is None:
         raise AnalysisError('anchor vanished: rate_limit.update')
     con = ctx.construct(fn)
-    defs = local_defs(fn.node)
-    # the reservation field: the field written from a value depending on itself
-    stores = [n for n in own_nodes(fn.node) if isinstance(n, (ast.Assign, ast.AugAssign)) and any(
-        self_field(t) is not None and isinstance(t, ast.Attribute)
-        for t in (n.targets if isinstance(n, ast.Assign) else [n.target]))]
-    if len(stores) != 1:
-        R.ob('RESERVE-ALGEBRA', con, 'single-store', False,
-             'the reservation must be written exactly once per element (found %d field stores)' % len(stores),
-             ctx.where(fn, fn.node.lineno))
-        return
-    st = stores[0]
-    tgt = st.targets[0] if isinstance(st, ast.Assign) else st.target
-    f = self_field(tgt)
-    # locals that snapshot the field BEFORE the store are "previous"
-    prev_names = {n for n, vals in defs.items() if len(vals) == 1 and vals[0] is not None and
-                  isinstance(vals[0], ast.Attribute) and self_field(vals[0]) == f}
-    d2 = {k: v for k, v in defs.items() if k not in prev_names}
+    paths = [r for r in SymEval(M, cls, name_calls=True).run(fn) if not r.raised]
+    if not paths:
+        raise AnalysisError('rate_limit.update: no normal path (unrecognised spelling)')
+    fields = {f for r in paths for f, v, s_, l in r.stores}
+    bad = {}
 
-    def nf(node):
-        s = norm(node, d2)
-        for p in prev_names:
-            s = _replace_name(s, p, 'PREV')
-        return s.replace('self.' + f, 'PREV').replace('self.interval', 'INTERVAL')
-
-    val = st.value if isinstance(st, ast.Assign) else ast.BinOp(left=tgt, op=st.op, right=st.value)
-    got = nf(val)
-    R.ob('RESERVE-ALGEBRA', con, 'new-reservation', got in ('(INTERVAL + max(NOW, PREV))', '(max(NOW, PREV) + INTERVAL)'),
-         'the stored reservation is %s, expected max(now, previous) + interval' % got, ctx.where(fn, st.lineno))
-    # sleeps iff now < previous, for previous - now
-    sleeps = [n for n in own_nodes(fn.node) if isinstance(n, (ast.Yield, ast.Await)) and isinstance(n.value, ast.Call)
-              and src(n.value.func).split('.')[-1] == 'sleep']
-    ok, detail = True, ''
-    if len(sleeps) != 1:
-        ok, detail = False, 'expected exactly one sleep, found %d' % len(sleeps)
+    def fail(tok, msg):
+        bad.setdefault(tok, msg)
+    if len(fields) != 1:
+        fail('single-store', 'the reservation must be one field written once per element (fields written: %s)' % sorted(fields))
+        f = None
     else:
-        sl = sleeps[0]
-        arg = nf(sl.value.args[0]) if sl.value.args else None
-        if arg != '(PREV - NOW)':
-            ok, detail = False, 'sleeps for %s, expected previous - now' % arg
-        guard = None
-        for n in own_nodes(fn.node):
-            if isinstance(n, ast.If) and any(x is sl for s in n.body for x in ast.walk(s)):
-                guard = n
-        if guard is None:
-            ok, detail = False, 'the sleep is unconditional: an element arriving on an idle line is delayed'
-        else:
-            g = nf(guard.test)
-            if g not in ('NOW < PREV',):
-                ok, detail = False, 'sleeps when %s, expected now < previous' % g
-            if guard.orelse:
-                ok, detail = False, 'unexpected else-branch on the sleep guard'
-    R.ob('RESERVE-ALGEBRA', con, 'sleep', ok, detail, ctx.where(fn, sleeps[0].lineno if sleeps else fn.node.lineno))
-    # order on every path: snapshot read, store, [sleep], emit; `now` is read once, before the store
-    bad, n = None, 0
-    detail = ''
-    for pst, status in ctx.paths(fn, cls):
-        evs = pst.events
-        if is_failure(evs, status):
+        f = fields.pop()
+    PREV = 'self.%s' % f
+    IV = 'self.interval'
+    for r in (paths if f else []):
+        sts = [(i, v, s_) for i, (ff, v, s_, l) in enumerate(r.stores) if ff == f]
+        if len(sts) != 1:
+            fail('single-store', 'the reservation is written %d times on a path' % len(sts))
             continue
-        n += 1
-        i_st = next((i for i, e in enumerate(evs) if e.kind == 'ST' and e.a == f), None)
-        i_sus = next((i for i, e in enumerate(evs) if e.kind == 'SUS'), None)
-        ems = [i for i, e in enumerate(evs) if e.kind == 'EM']
-        nows = [i for i, e in enumerate(evs) if e.kind == 'CALL' and e.a in ('time', 'time.time')]
-        if i_st is None or (i_sus is not None and i_sus < i_st):
-            bad, detail = evs, 'the reservation is not stored before the first suspension'
-        elif len(ems) != 1 or ems[0] < i_st:
-            bad, detail = evs, 'expected exactly one emission after the reservation'
-        elif len(nows) != 1 or nows[0] > i_st:
-            bad, detail = evs, 'the clock must be read exactly once, before the reservation is stored'
-    R.ob('RESERVE-ALGEBRA', con, 'order', bad is None and n > 0, detail, ctx.where(fn, fn.node.lineno),
-         fmt_path(bad) if bad else None, n)
+        nows = [k for k, (c, s_, l) in enumerate(r.calls) if isinstance(c, ast.Call) and snf(c.func) in ('time', 'time.time')]
+        if len(nows) != 1:
+            fail('order', 'the clock must be read exactly once per element (found %d reads)' % len(nows))
+            continue
+        NOW = 'C%d' % nows[0]
+
+        def expand1(t):
+            return re.sub(r'(?<![A-Za-z0-9_])C(\d+)(?![A-Za-z0-9_])',
+                          lambda m: snf(r.calls[int(m.group(1))][0]) if snf(r.calls[int(m.group(1))][0]).startswith('max(') else m.group(0), t)
+        busy = None
+        for c, o in r.conds:
+            t, o2 = norm_cond(c, o)
+            try:
+                e = ast.parse(t, mode='eval').body
+            except SyntaxError:
+                continue
+            if isinstance(e, ast.Compare) and len(e.ops) == 1:
+                l_, r_ = snf(e.left), snf(e.comparators[0])
+                if {l_, r_} == {NOW, PREV}:
+                    lt = isinstance(e.ops[0], (ast.Lt, ast.LtE))
+                    gt = isinstance(e.ops[0], (ast.Gt, ast.GtE))
+                    if not (lt or gt):
+                        continue
+                    now_smaller = (lt and l_ == NOW) or (gt and l_ == PREV)
+                    b2 = o2 if now_smaller else not o2
+                    if busy is not None and busy != b2:
+                        busy = 'infeasible'     # the same comparison decided both ways (spelled twice): not a real path
+                        break
+                    busy = b2
+        if busy == 'infeasible':
+            continue
+        # the stored value
+        v = expand1(snf(sts[0][1]))
+        mx = ('max(%s,%s)' % (NOW, PREV), 'max(%s,%s)' % (PREV, NOW))
+        accepted = {'%s+%s' % (m_, IV) for m_ in mx} | {'%s+%s' % (IV, m_) for m_ in mx}
+        if busy is True:
+            accepted |= {'%s+%s' % (PREV, IV), '%s+%s' % (IV, PREV)}
+        if busy is False:
+            accepted |= {'%s+%s' % (NOW, IV), '%s+%s' % (IV, NOW)}
+        if v not in accepted:
+            fail('new-reservation', 'the stored reservation is %s, expected max(now, previous) + interval'
+                 % v.replace(NOW, 'now').replace(PREV, 'previous').replace(IV, 'interval'))
+        # the sleep
+        sleeps = [(k, c) for k, (c, s_, l) in enumerate(r.calls) if isinstance(c, ast.Call) and snf(c.func).split('.')[-1] == 'sleep']
+        if busy is None and sleeps:
+            fail('sleep', 'the sleep is unconditional: an element arriving on an idle line is delayed')
+        if busy is True:
+            if len(sleeps) != 1:
+                fail('sleep', 'a busy line is met with %d sleeps, expected one' % len(sleeps))
+            else:
+                k, c = sleeps[0]
+                arg = snf(c.args[0]) if c.args else ''
+                if arg != '%s-%s' % (PREV, NOW):
+                    fail('sleep', 'sleeps for %s, expected previous - now' % arg.replace(NOW, 'now').replace(PREV, 'previous'))
+                if k not in r.awaited_calls:
+                    fail('sleep', 'the sleep is not awaited')
+        if busy is False and sleeps:
+            fail('sleep', 'sleeps although now >= previous')
+        # order
+        pos = {('call', nows[0]): None, ('store', sts[0][0]): None}
+        for j, key in enumerate(r.order):
+            if key in pos:
+                pos[key] = j
+        if pos[('call', nows[0])] is None or pos[('store', sts[0][0])] is None or pos[('call', nows[0])] > pos[('store', sts[0][0])]:
+            fail('order', 'the clock must be read before the reservation is stored')
+        if sts[0][2] != 0:
+            fail('order', 'the reservation is not stored before the first suspension')
+        ems = [j for j, (kind, i) in enumerate(r.order) if kind == 'emit']
+        if len(r.emits) != 1 or ems[0] < pos[('store', sts[0][0])]:
+            fail('order', 'expected exactly one emission after the reservation')
+        elif snf(r.emits[0][0]) != 'x' or snf(r.emits[0][1]) != 'metadata':
+            fail('order', 'the element is not emitted unchanged with its metadata')
+    for tok in ('single-store', 'new-reservation', 'sleep', 'order'):
+        R.ob('RESERVE-ALGEBRA', con, tok, tok not in bad, bad.get(tok, ''), ctx.where(fn, fn.node.lineno), None, len(paths))
     # initial reservation lies in the past (an idle line passes at once)
-    init = cls.methods.get('__init__')
-    iv = [n.value for n in own_nodes(init.node) if isinstance(n, ast.Assign) and self_field(n.targets[0]) == f] if init else []
+    init = cls.find('__init__')
+    iv = [n.value for n in own_nodes(init.node) if isinstance(n, ast.Assign) and self_field(n.targets[0]) == f] if init and f else []
     R.ob('RESERVE-ALGEBRA', con, 'initial', len(iv) == 1 and isinstance(iv[0], ast.Constant) and iv[0].value == 0,
          'the initial reservation is not 0 (the first element would be delayed or the slot is undefined)',
          ctx.where(init, init.node.lineno) if init else None)
